@@ -88,6 +88,10 @@ var c17Fillers = []c17block{
 	blk(-1, "(def s1 ¬line one", "line two (", "line three¬)"),
 	blk(-1, "(def f1 (fn [a]", "  (list a", "        a)))"),
 	blk(-1, "(def zz-datum", "  '(check-failed", "     :reason \"r\"))"),
+	// the names and tokens of the faults written earlier / later in the text where they are legal: a
+	// parameter called like the undefined symbol, the same literals quoted (a fault is reported where it
+	// happens, not where its spelling first occurred)
+	blk(-1, "(def f2 (fn [zz-undefined]", "  (list zz-undefined", "    '(nth [] 3) \"zz-boom\" '(1 2))))"),
 }
 
 type c17delivery struct {
